@@ -44,10 +44,13 @@ BUILD_TARGETS = ["DfolsVerif.Driver.InterpDrv"]
 def pre_build(ctx):
     import gen_snapshots
     ctx.cov["snapshot_assignments_in_repo"] = gen_snapshots.regenerate(ctx)
+    import gen_unscale
+    gen_unscale.regenerate(ctx)
 
 
 THEOREMS = [
     "Dfols.C11.C11_src_snapshots",
+    "Dfols.C11.C11_src_unscale_jacobian",
     "Dfols.C11.C11_labels",
     "Dfols.C11.interpolate_snapshot",
     "Dfols.C11.savePoint_carries",
